@@ -219,7 +219,7 @@ def check(ctx):
                 kind = kind or "bounded-interpreter-loop (R03.1)"
             ctx.check(kind is not None, "R03.5", key, kind or "-", fn.at(),
                       bad_detail="unrecognised loop shape in %s (header bb%d): not an iterator-driven for, not Flush's while-pop, not the counted interpreter loop" % (fid, head))
-    ctx.floor("R03.5", n_loops, 3, "natural loops in the evaluation scope")
+    ctx.floor("R03.5", n_loops, 1, "natural loops in the evaluation scope (the interpreter loop itself must be seen; other loops may legitimately disappear)")
     # recursion: record (not asserted)
     ctx.extra["recursive_functions_in_scope_note"] = "PushProgram Clone/Drop/PartialEq and block performs recurse over program nesting depth: resource limit, not decided"
 
